@@ -382,7 +382,28 @@ def shared_trees(rng):
     leaf = rng.choice([D.Count(), D.Sum("x"), D.Bin(2, 0, 4, "x"), D.Average("y"), D.SparselyBin(2, "x")])
     X = dict(leaf, share="X")
     other = rng.choice([D.Count(), D.Sum("y")])
-    k = rng.randrange(9)
+    k = rng.randrange(14)
+    if k >= 9:
+        # objects installed at flow positions by assignment (h.nanflow = obj): the constructors copy their flow
+        # arguments, so this is the only way one object gets to sit there.  The interesting case is an object that
+        # EQUALS the container's value template (an unfilled Count next to a Count template)
+        XI = dict(rng.choice([D.Count(), D.Count(), D.Sum("x"), D.Sum("y")]), share="X", inst=True)
+        XP = dict(XI, inst=False)
+        val = rng.choice([D.Count(), D.Sum("y")])
+        host = rng.choice([lambda f: D.SparselyBin(2, "x", val, nan=f), lambda f: D.CentrallyBin([0, 2, 4], "x", val, nan=f),
+                           lambda f: D.IrregularlyBin([1, 3], "x", val, nan=f), lambda f: D.Stack([1, 3], "x", val, nan=f),
+                           lambda f: D.Bin(2, 0, 4, "x", val, nan=f), lambda f: D.Bin(2, 0, 4, "x", val, under=f),
+                           lambda f: D.Bin(2, 0, 4, "x", val, over=f)])
+        if k == 9:    # a flow and a sibling of its container
+            return D.UntypedLabel(h=host(XI), total=XP), True
+        if k == 10:   # the same, the sibling first
+            return D.Branch(XP, host(XI)), True
+        if k == 11:   # one object as a flow of two containers
+            return D.Branch(host(XI), host(XI)), True
+        if k == 12:   # two flows of one Bin
+            return D.Branch(D.Bin(2, 0, 4, "x", val, under=XI, nan=XI), other), True
+        # different objects installed: nothing is shared
+        return D.Branch(host(XI), dict(XP, share="Y")), False
     if k == 0:
         return D.Branch(X, X), True
     if k == 1:
